@@ -588,15 +588,47 @@ fn apply_proj(pattern_str: &str) -> impl Applier<Expr, ExprAnalysis> {
                 .cloned()
                 .collect::<HashSet<Expr>>();
 
+            // e-classes of the (sub)expressions of `[?vars]`, not looking through `ref`s, computed
+            // when needed: an expression that the child outputs as a column (e.g. a group key
+            // `a + b`) is used by a parent that contains it, although the parent's column set only
+            // names `a` and `b`
+            let mut used_exprs: Option<HashSet<Id>> = None;
+
             let mut subst = subst.clone();
             for &child in &self.children {
                 // filter out unused columns from child's schema
                 let child_id = subst[child];
-                let filtered = produced(egraph, child_id)
-                    .filter(|col| used.contains(col))
-                    .collect_vec();
-                let filtered_ids = filtered.into_iter().map(|col| egraph.add(col)).collect();
-                let id = egraph.add(Expr::List(filtered_ids));
+                let schema = egraph[child_id].data.schema.clone();
+                let columns = produced(egraph, child_id).collect_vec();
+                let mut filtered_ids = vec![];
+                for (expr_id, col) in schema.into_iter().zip(columns) {
+                    let is_column = egraph[expr_id]
+                        .iter()
+                        .any(|e| matches!(e, Expr::Column(_) | Expr::Ref(_)));
+                    if used.contains(&col) {
+                        filtered_ids.push(egraph.add(col));
+                    }
+                    if !is_column {
+                        let exprs = used_exprs.get_or_insert_with(|| {
+                            let mut seen = HashSet::new();
+                            let mut stack = self.used.iter().map(|v| subst[*v]).collect_vec();
+                            while let Some(id) = stack.pop() {
+                                if seen.insert(egraph.find(id)) {
+                                    for e in egraph[id].iter() {
+                                        if !matches!(e, Expr::Ref(_)) {
+                                            stack.extend_from_slice(e.children());
+                                        }
+                                    }
+                                }
+                            }
+                            seen
+                        });
+                        if exprs.contains(&egraph.find(expr_id)) {
+                            filtered_ids.push(expr_id);
+                        }
+                    }
+                }
+                let id = egraph.add(Expr::List(filtered_ids.into()));
                 let id = egraph.add(Expr::Proj([id, child_id]));
                 subst.insert(child, id);
             }
